@@ -30,10 +30,15 @@ void ManagedText::TranslateRefs(const StrTranslator& old2New, const EntityTermCo
 void ManagedText::TranslateRaw(const StrTranslator& old2New) {
   auto refs = Reference::ExtractAll(rawText);
   for (auto ref = rbegin(refs); ref != rend(refs); ++ref) {
-    if (ref->IsEntity() && ref->TranslateEntity(old2New)) {
-      const auto start = UTF8Iterator(rawText, ref->position.start).BytePosition();
-      const auto oldLength = UTF8Iterator(rawText, ref->position.finish).BytePosition() - start;
-      rawText.replace(start, oldLength, ref->ToString());
+    if (!ref->IsEntity()) {
+      continue;
+    }
+    const auto oldLength = ref->GetEntity().length();
+    if (ref->TranslateEntity(old2New)) {
+      // Note: only the entity name - the first field, right after "@{" - is re-spelled
+      static constexpr auto prefixLen = 2U;
+      const auto start = UTF8Iterator(rawText, ref->position.start).BytePosition() + prefixLen;
+      rawText.replace(start, oldLength, ref->GetEntity());
     }
   }
 }
